@@ -4,6 +4,7 @@ mod ops_graph;
 mod ops_names;
 mod ops_types;
 mod ops_valid;
+mod project;
 mod rty;
 mod out;
 mod rng;
@@ -24,6 +25,7 @@ pub fn exec(op: &str, input: &Value) -> (Value, Value) {
         "fieldAttrs" => ops_names::exec_field_attrs(input),
         "validator" => ops_valid::exec_validator(input),
         "configSave" => ops_config::exec_config_save(input),
+        "project" => project::exec_project(input),
         _ => (input.clone(), json!({"error": format!("unknown op {}", op)})),
     }
 }
@@ -97,6 +99,7 @@ fn main() {
         "params" => ops_names::run_params(&mut out, &tier, &mut rng),
         "valid" => ops_valid::run(&mut out, &tier, &mut rng),
         "config" => ops_config::run(&mut out, &tier, &mut rng),
+        "project" => project::run(&mut out, &tier, &mut rng),
         _ => {
             eprintln!("unknown group {}", group);
             std::process::exit(2);
